@@ -403,6 +403,10 @@ class Exec:
                       ('f64', 'MAX'): FPVal(1.7976931348623157e308, F64), ('f64', 'MIN'): FPVal(-1.7976931348623157e308, F64),
                       ('f64', 'EPSILON'): FPVal(2.220446049250313e-16, F64)}
             if (ty, var) in consts: return consts[(ty, var)]
+            if ty == 'Level' and var in ('TRACE', 'DEBUG', 'INFO', 'WARN', 'ERROR') and 'tracing' in c:
+                # tracing::Level(LevelInner): the macros match on it to pick the `log` level before their level check (which the models cut)
+                names = ['Trace', 'Debug', 'Info', 'Warn', 'Error']
+                return [Enum('LevelInner', BitVecVal(['TRACE', 'DEBUG', 'INFO', 'WARN', 'ERROR'].index(var), 64), {n: [] for n in names})]
         if 'promoted[' in c:
             f = self.find_const(c)
             if f is not None: return self.run_const(f)
